@@ -76,7 +76,8 @@ pub fn install_hooks() {
 }
 
 fn msg(tag: usize, step: usize) -> String {
-    format!("boom-t{tag}-s{step}-end")
+    // two lines: the whole message has to be in the error text, not just its first line
+    format!("boom-t{tag}-s{step}\nline two of t{tag}-s{step}-end")
 }
 
 fn find_msg(text: &str, tag: usize, n: usize) -> Option<usize> {
